@@ -1,5 +1,6 @@
 import Driver.Proto
 import MesonModel.Install.Model
+import MesonModel.Install.Glue
 /-
 Driver commands of area `install`.
 
@@ -206,6 +207,22 @@ def handle (cmd : String) (fs : List String) : String :=
                        tags := if hasTags == "1" then (if decodeStr tags = [] then none else some (parseList (decodeStr tags))) else none,
                        skip := parseList (decodeStr skip) }
     boolStr (shouldInstall cfg (decodeStr sub) (if hasTag == "1" then some (decodeStr tag) else none))
+  | "ghdr", [inc, hc, c, hs, sd, pres, f] =>
+    encodeStr (hdrInstallPath (decodeStr inc) (if hc == "1" then some (decodeStr c) else none)
+      (if hs == "1" then some (decodeStr sd) else none) (pres == "1") (decodeStr f))
+  | "gman", [mr, hc, c, hl, l, f] =>
+    encodeStr (manInstallPath (decodeStr mr) (if hc == "1" then some (decodeStr c) else none)
+      (if hl == "1" then some (decodeStr l) else none) (decodeStr f))
+  | "gdata", [d, hr, r, pres, f] =>
+    encodeStr (dataInstallPath (decodeStr d) (if hr == "1" then some (decodeStr r) else none) (pres == "1") (decodeStr f))
+  | "gsubsrc", [a, b, c] => encodeStr (subdirSrc (decodeStr a) (decodeStr b) (decodeStr c))
+  | "gsub", [pf, d, src, strip] => encodeStr (subdirInstallPath (decodeStr pf) (decodeStr d) (decodeStr src) (strip == "1"))
+  | "gsym", [d, n] => encodeStr (symlinkName (decodeStr d) (decodeStr n))
+  | "replace", [p, r, x] =>
+    (match decodeStr p with
+     | p0 :: pt => encodeStr (replaceAll p0 pt (decodeStr r) (decodeStr x))
+     | [] => "bad-op")
+  | "lastfield", [x] => encodeStr (lastField '.' (decodeStr x))
   | "hist", [r] => hist r
   | _, _ => "bad-op"
 
